@@ -18,7 +18,8 @@ void __verif_observe(long long v);
 void __verif_observe_f(double v);
 void __verif_protect(const void* p, unsigned long n);   // region becomes read-only: any store is a violation
 void __verif_unprotect(const void* p, unsigned long n);
-void __verif_note(const char* label);                // trace marker (both worlds)
+void __verif_note(const char* label);
+void __verif_havoc_int_range(long long lo, long long hi); // FP-havoc runs: float->int conversions from here on yield values in [lo,hi] (no-op natively)                // trace marker (both worlds)
 #ifdef __cplusplus
 }
 #endif
